@@ -255,6 +255,13 @@ func genKeyType(t *rapid.T, p Profile) *Type {
 
 // GenStructType draws a struct type with 1..4 fields.
 func GenStructType(t *rapid.T, p Profile, depth int) *Type {
+	if p.Hidden && rapid.IntRange(0, 9).Draw(t, "declared") == 0 {
+		// a declared type with a String method over hidden state
+		if rapid.Bool().Draw(t, "stringerPtr") {
+			return DeclStringerPtr()
+		}
+		return DeclStringerVal()
+	}
 	nf := rapid.IntRange(1, 4).Draw(t, "nf")
 	used := map[string]bool{}
 	var fs []Field
@@ -275,8 +282,10 @@ func GenStructType(t *rapid.T, p Profile, depth int) *Type {
 			// an embedded struct: its promoted fields must not become reachable by their own names
 			// (reflect.StructOf cannot build unexported embedded fields, so only exported ones are generated)
 			f.T = GenStructType(t, p, depth-1)
-			f.Embedded = true
-			embedded = true
+			if f.T.Decl == "" { // reflect.StructOf cannot embed types that have methods
+				f.Embedded = true
+				embedded = true
+			}
 		}
 		var tags []string
 		tagc := rapid.IntRange(0, 9).Draw(t, "tagc")
